@@ -72,6 +72,28 @@ def post_validate_simplify(work, st):
     return [("validator", k, f"verified validator rejects the implementation's {what}: {o.strip()}") for (k, _, what), o in bad]
 
 
+def post_validate_bytecode(work, st):
+    """Decodes the implementation's own bytecode words with the documentation-only
+    decoder and runs the verified equivalence check against its register tape,
+    plus the bounds check."""
+    lines = open(os.path.join(work, "impl.txt")).read().splitlines()
+    reqs, idx = [], []
+    for k, ln in enumerate(lines):
+        s = split_sections(ln)
+        if "reg" in s and "bc" in s:
+            reg = s["reg"].split(" ", 2)[2]
+            bc = s["bc"].split(" ")
+            reqs.append(f"bcval {reg} {bc[1]} {bc[2]} {' '.join(bc[3:])}"); idx.append(k)
+    vp = os.path.join(work, "val_cases.txt")
+    open(vp, "w").write("\n".join(reqs) + ("\n" if reqs else ""))
+    run_runner(vp, os.path.join(work, "val_out.txt"))
+    outs = open(os.path.join(work, "val_out.txt")).read().splitlines()
+    bad = [(idx[j], o) for j, o in enumerate(outs) if o.strip() != "bcval 1 bounds 1"]
+    st["validator_requests"] = len(outs)
+    st["validator_rejects"] = len(bad)
+    return [("validator", k, f"verified bytecode check fails on the implementation's words: {o.strip()}") for k, o in bad]
+
+
 # ------------------------------------------------------------------ generic flow
 def run_property(prop, sp, tier, seed, replay):
     t0 = time.time()
@@ -272,4 +294,14 @@ spec("C10",
      rule="random histories (5-40 steps) over 3-6 functions of different shapes with ONE long-lived point/interval/float-slice/grad-slice evaluator, one workspace, recycled function storage and recycled tape storage (JIT: Mmap), steps in {point, interval, slice(n), grad(n), simplify, recycle+rebuild}; every step is compared bit-for-bit with a twin using fresh objects; backends interpreter N=4, N=255 and x86_64 JIT; evaluations = histories, distinct_nontrivial = histories (each has its own random functions)",
      classify=classify_default,
      assumptions=["the history check is an oracle run on the implementation (differential against fresh objects); the theorems cover reset = new and stale-content independence of the modelled evaluators"],
+     )
+
+spec("C15",
+     cmd="c15", count=dict(quick=500, thorough=10000),
+     vo_targets=["props/C15.vo"],
+     post=[post_validate_bytecode],
+     level="proof",
+     rule="random DAGs (1-100 ops, 1-4 outputs, 0-5 free vars) at register budgets {3,4,8,255} (small budgets force Load/Store = Mem ops), 3 points each; distinct_nontrivial = distinct bytecode word streams",
+     classify=classify_default,
+     assumptions=["the Rust documentation-only interpreter (oracle) and the Coq decoder are both written from the module docs: opcode table from iter_ops / regenerated enum order"],
      )
